@@ -150,6 +150,32 @@ impl event::Subscriber for Sub {
         let t = m.timestamp.duration_since_start().as_nanos() as u64;
         sh.note(t, "s2n", || format!("packet_dropped {:?}", e.reason));
         *sh.s.packets_dropped.entry(reason).or_insert(0) += 1;
+        // a 1-RTT packet that fails authentication although nothing on the path corrupts
+        // datagrams: where does the packet number s2n-quic reconstructed lie relative to
+        // what it had processed / acknowledged?
+        if let events::PacketDropReason::DecryptionFailed {
+            packet_header: events::PacketHeader::OneRtt { number, .. },
+            ..
+        } = &e.reason
+        {
+            let (rx, acked) = (sh.s.largest_rx_1rtt, sh.s.largest_ack_sent_1rtt);
+            let d = &mut sh.s.decrypt_failed;
+            d.total += 1;
+            if *number > rx {
+                d.decoded_ahead_of_rx += 1;
+                d.max_ahead = d.max_ahead.max(*number - rx);
+            }
+            sh.note(t, "s2n", || {
+                format!("  ^ decoded pn {number}; largest 1-RTT pn processed {rx}; largest acknowledged in a sent ACK {acked}")
+            });
+        }
+    }
+
+    fn on_packet_received(&mut self, _c: &mut (), _m: &events::ConnectionMeta, e: &events::PacketReceived) {
+        if let events::PacketHeader::OneRtt { number, .. } = &e.packet_header {
+            let mut sh = self.sh.lock().unwrap();
+            sh.s.largest_rx_1rtt = sh.s.largest_rx_1rtt.max(*number);
+        }
     }
 
     fn on_datagram_dropped(&mut self, _c: &mut (), _m: &events::ConnectionMeta, e: &events::DatagramDropped) {
@@ -167,7 +193,13 @@ impl event::Subscriber for Sub {
     }
 
     fn on_frame_sent(&mut self, _c: &mut (), _m: &events::ConnectionMeta, e: &events::FrameSent) {
-        *self.sh.lock().unwrap().s.frames_sent.entry(frame_name(&e.frame)).or_insert(0) += 1;
+        let mut sh = self.sh.lock().unwrap();
+        *sh.s.frames_sent.entry(frame_name(&e.frame)).or_insert(0) += 1;
+        if let (events::PacketHeader::OneRtt { .. }, events::Frame::Ack { largest_acknowledged, .. }) =
+            (&e.packet_header, &e.frame)
+        {
+            sh.s.largest_ack_sent_1rtt = sh.s.largest_ack_sent_1rtt.max(*largest_acknowledged);
+        }
     }
 
     fn on_frame_received(&mut self, _c: &mut (), _m: &events::ConnectionMeta, e: &events::FrameReceived) {
